@@ -85,7 +85,7 @@ func run2(c tcase) (t gostatsd.Timer, found bool, sib gostatsd.Timer, sibFound b
 	if c.Prior {
 		pm := gostatsd.NewMetricMap(false)
 		for _, v := range []float64{100, -50} {
-			pm.Receive(&gostatsd.Metric{Name: "t", Type: gostatsd.TIMER, Value: v, Rate: 0.5, Tags: append(gostatsd.Tags{}, tags...), Timestamp: 5})
+			pm.Receive(&gostatsd.Metric{Name: "t", Type: gostatsd.TIMER, Value: v, Rate: 0.5, Tags: append(gostatsd.Tags{}, tags...), Timestamp: gostatsd.NanoNow()})
 		}
 		ag.ReceiveMap(pm)
 		ag.Flush(c.Interval)
@@ -94,13 +94,13 @@ func run2(c tcase) (t gostatsd.Timer, found bool, sib gostatsd.Timer, sibFound b
 	}
 	mm := gostatsd.NewMetricMap(false)
 	neighbour := func() {
-		mm.Receive(&gostatsd.Metric{Name: "t", Type: gostatsd.TIMER, Value: 7, Rate: 0.25, Tags: gostatsd.Tags{"sib:1"}, Timestamp: 5})
+		mm.Receive(&gostatsd.Metric{Name: "t", Type: gostatsd.TIMER, Value: 7, Rate: 0.25, Tags: gostatsd.Tags{"sib:1"}, Timestamp: gostatsd.NanoNow()})
 	}
 	if c.Neighbour == 1 {
 		neighbour()
 	}
 	for i, v := range c.Values {
-		mm.Receive(&gostatsd.Metric{Name: "t", Type: gostatsd.TIMER, Value: v, Rate: rp[i%len(rp)], Tags: append(gostatsd.Tags{}, tags...), Timestamp: 5})
+		mm.Receive(&gostatsd.Metric{Name: "t", Type: gostatsd.TIMER, Value: v, Rate: rp[i%len(rp)], Tags: append(gostatsd.Tags{}, tags...), Timestamp: gostatsd.NanoNow()})
 		if c.Grouping == 1 {
 			ag.ReceiveMap(mm)
 			mm = gostatsd.NewMetricMap(false)
@@ -273,6 +273,12 @@ func main() {
 							}
 						}
 					}
+				}
+			}
+			// fractional thresholds (names carry the integer part, the cut-off does not)
+			for _, p := range []float64{99.9, 2.5, -99.5, 12.9, 37.6, -62.6, 87.7} {
+				for rpi := range ratePats[:2] {
+					check(tcase{Values: cur, RatePat: rpi, Grouping: 0, Pcts: []float64{p}, Interval: time.Second, Mask: 0})
 				}
 			}
 			// the same series in a second interval: only this interval's values count
